@@ -32,9 +32,16 @@ var solvers = []solverSpec{
 	{"cvc5", func(f string, t int) []string {
 		return []string{"cvc5", "--strings-exp", fmt.Sprintf("--tlimit=%d", t*1000), f}
 	}},
+	// quantifier-oriented configurations (E-matching only / old arithmetic core; enumerative instantiation)
+	{"z3-new-ematch", func(f string, t int) []string {
+		return []string{"z3-new", "smt.mbqi=false", "smt.arith.solver=2", fmt.Sprintf("-T:%d", t), f}
+	}},
+	{"cvc5-enum", func(f string, t int) []string {
+		return []string{"cvc5", "--strings-exp", "--full-saturate-quant", fmt.Sprintf("--tlimit=%d", t*1000), f}
+	}},
 }
 
-var solverSem = make(chan struct{}, 14)
+var solverSem = make(chan struct{}, 16)
 
 // Solve races all solvers on the script. If all=true, waits for all solvers and reports disagreement.
 func Solve(script string, workdir, name string, timeoutS int, all bool) SolveResult {
